@@ -46,10 +46,9 @@ const REQUEST_BUF_LEN: usize = BUFFER_SIZE + 64;
 
 /// Size of each response buffer
 ///
-/// Enough for:
-/// - IPv6 announce response with 112 peers
-/// - scrape response for 170 info hashes
-const RESPONSE_BUF_LEN: usize = 2048;
+/// Same as in the mio implementation. Configuration is checked on startup to
+/// make sure that the largest possible response fits.
+const RESPONSE_BUF_LEN: usize = BUFFER_SIZE;
 
 const USER_DATA_RECV_V4: u64 = u64::MAX;
 const USER_DATA_RECV_V6: u64 = u64::MAX - 1;
